@@ -710,6 +710,72 @@ pub fn run(tier: &str, seed: u64, driver: &str, out: &str) {
             midx.push(i);
         }
     }
+    // time proportional to the input: large well-formed objects (many distinct rights / components), ten times larger
+    // again — deserialising (and using) the larger one may cost about ten times more, not a hundred
+    let mut scaling = vec![];
+    {
+        use crate::wire::{WEnc, WMpk, WUsk};
+        let cc = Covercrypt::default();
+        let enc_c = XEnc::deserialize(&base.enc_c).unwrap();
+        let n1: usize = if tier == "thorough" { 6000 } else { 3000 };
+        let build = |ty: &str, n: usize| -> Vec<u8> {
+            let name = |i: usize| -> Vec<u8> { vec![0x7f, (i >> 16) as u8, (i >> 8) as u8, i as u8] };
+            match ty {
+                "usk" => {
+                    let mut w = WUsk::read(&base.usk).unwrap();
+                    // a classic secret when the key has one (the objects stay small)
+                    let k = w.secrets.iter().flat_map(|(_, c)| c.iter()).find(|k| k.hyb == 0).unwrap_or(&w.secrets[0].1[0]).clone();
+                    w.secrets = (0..n).map(|i| (name(i), vec![k.clone()])).collect();
+                    w.write()
+                }
+                "mpk" => {
+                    let mut w = WMpk::read(&base.mpk).unwrap();
+                    let k = w.keys.iter().map(|(_, k)| k).find(|k| k.hyb == 0).unwrap_or(&w.keys[0].1).clone();
+                    w.keys = (0..n).map(|i| (name(i), k.clone())).collect();
+                    w.write()
+                }
+                _ => {
+                    let mut w = WEnc::read(&base.enc_c).unwrap();
+                    let c = w.encs[0].clone();
+                    w.encs = (0..n).map(|_| c.clone()).collect();
+                    w.write()
+                }
+            }
+        };
+        let time = |ty: &str, b: &[u8]| -> Option<f64> {
+            let mut best = f64::MAX;
+            for _ in 0..3 {
+                let t0 = Instant::now();
+                let ok = std::panic::catch_unwind(std::panic::AssertUnwindSafe(|| match ty {
+                    "usk" => UserSecretKey::deserialize(b).map(|u| { let _ = cc.decaps(&u, &enc_c); }).is_ok(),
+                    "mpk" => MasterPublicKey::deserialize(b).map(|k| { let _ = k.tracing_level(); }).is_ok(),
+                    _ => XEnc::deserialize(b).map(|x| { let _ = x.count(); }).is_ok(),
+                })).unwrap_or(false);
+                if !ok {
+                    return None;
+                }
+                best = best.min(t0.elapsed().as_secs_f64());
+            }
+            Some(best)
+        };
+        for ty in ["usk", "mpk", "enc"] {
+            let (b1, b2) = (build(ty, n1), build(ty, 10 * n1));
+            match (time(ty, &b1), time(ty, &b2)) {
+                (Some(t1), Some(t2)) => {
+                    let ratio = t2 / t1.max(1e-6);
+                    scaling.push(serde_json::json!({"type": ty, "elements": [n1, 10 * n1], "bytes": [b1.len(), b2.len()], "seconds": [t1, t2], "ratio": ratio}));
+                    if t2 > 0.05 && ratio > 35.0 && fails.len() < 40 {
+                        fails.push(serde_json::json!({
+                            "kind": "impl-oracle", "oracle": "untrusted-bytes", "tags": ["time-not-proportional", "scaling", "-"],
+                            "what": format!("{ty} with {} distinct elements ({} bytes) takes {:.3} s to deserialise and use, {:.0} times what the same object with {} elements ({} bytes, {:.4} s) takes: not proportional to the input", 10 * n1, b2.len(), t2, ratio, n1, b1.len(), t1),
+                            "lines": [format!("{ty} <synthetic: {} elements named 7f‖i, built from the base object>", 10 * n1)], "case": format!("scaling {ty}"),
+                        }));
+                    }
+                }
+                _ => scaling.push(serde_json::json!({"type": ty, "elements": [n1, 10 * n1], "rejected": true})),
+            }
+        }
+    }
     let model = crate::run::run_model(driver, &mlines);
     let mut mism = vec![];
     for (k, o) in model.iter().enumerate() {
@@ -725,9 +791,9 @@ pub fn run(tier: &str, seed: u64, driver: &str, out: &str) {
         "soft_kind_mismatch": 0, "matrix_cells": 0, "matrix_open": 0,
         "samples": [{"type": muts[1].0, "mutation": muts[1].2, "bytes": hex(&muts[1].1)}, {"type": muts[muts.len() / 2].0, "mutation": muts[muts.len() / 2].2, "len": muts[muts.len() / 2].1.len()}],
         "mismatches": mism,
-        "extra": {"rule": "mutants of valid serialisations of 11 objects (classic and hybridised encapsulation, header, two user keys, public key, master key, access structure; the last three also in the older wire version V1): every truncation (strided in the middle of long objects in quick), single-byte corruption at every such position x {xor 1, xor 0x80, 0, 0xff}, every count / length / flag field replaced by 17 boundary, non-canonical and overflowing LEB128 values up to 2^64-1, appended garbage, random strings; each mutant is deserialised and, when accepted, used (decaps, recaps, header decryption, refresh, encaps, mpk, update, rekey, accessors, re-serialisation; accepted structures and master keys are then edited — attributes added, renamed, disabled, deleted, a dimension added — and updated) in a worker process under RLIMIT_AS, a 10 s watchdog and a counting allocator; oracle: no panic / crash / timeout, largest allocation request <= 64 x input + 1 MiB, peak <= 256 x input + 4 MiB; accepted mutants must also be accepted by the Lean wire model; distinct = distinct (type, bytes)",
+        "extra": {"rule": "mutants of valid serialisations of 11 objects (classic and hybridised encapsulation, header, two user keys, public key, master key, access structure; the last three also in the older wire version V1): every truncation (strided in the middle of long objects in quick), single-byte corruption at every such position x {xor 1, xor 0x80, 0, 0xff}, every count / length / flag field replaced by 17 boundary, non-canonical and overflowing LEB128 values up to 2^64-1, appended garbage, random strings; each mutant is deserialised and, when accepted, used (decaps, recaps, header decryption, refresh, encaps, mpk, update, rekey, accessors, re-serialisation; accepted structures and master keys are then edited — attributes added, renamed, disabled, deleted, a dimension added — and updated) in a worker process under RLIMIT_AS, a 10 s watchdog and a counting allocator; oracle: no panic / crash / timeout, largest allocation request <= 64 x input + 1 MiB, peak <= 256 x input + 4 MiB; accepted mutants must also be accepted by the Lean wire model; time proportional to the input: a user key, a public key and an encapsulation with thousands of distinct elements, and ten times as many (built from the base objects), may differ by a factor of about ten in the time to deserialise and use them (factor > 35 = violation); distinct = distinct (type, bytes)",
             "exhaustive": false, "per_line": true, "oracle_failures": fails, "oracle_checked": results.len(), "campaign": "C14",
-            "distribution": {"accepted_mutants_checked_against_model": mlines.len(), "worst_maxreq_per_input_byte": worst_ratio},
+            "distribution": {"accepted_mutants_checked_against_model": mlines.len(), "worst_maxreq_per_input_byte": worst_ratio, "scaling": scaling},
             "wall_s": t0.elapsed().as_secs_f64()},
     });
     std::fs::write(out, serde_json::to_string_pretty(&j).unwrap()).unwrap();
